@@ -140,6 +140,13 @@ func searchStmts(c pgcheck.ColCfg, v []byte, thorough bool) []pgcheck.Stmt {
 		mk("update-where-eq-literal", sess.Q("update t set plain = 'hit' where c = "+lit)),
 		mk("delete-where-eq-literal", sess.Q("delete from t where c = "+lit)),
 	}
+	// several searches in one statement: every one of them is rewritten with the owner's index
+	other := pool(c)[0]
+	out = append(out,
+		mk("eq-literal-and-eq-literal", sess.Q("select id from t where c = "+lit+" and c = "+lit)),
+		mk("eq-literal-or-eq-other-literal", sess.Q("select id from t where c = "+lit+" or c = "+pgcheck.Literals(c.Shadow, other)[0])),
+		mk("eq-param-or-eq-other-param", sess.Ext("", "select id from t where c = $1 or c = $2", [][]byte{tp, pgcheck.TextParams(c.Shadow, other)[0]}, nil, nil, nil)),
+	)
 	if c.Shadow == sess.OIDBytea {
 		out = append(out, mk("eq-cast-literal", sess.Q("select id from t where c = "+lit+"::bytea")))
 	}
@@ -150,7 +157,6 @@ func searchStmts(c pgcheck.ColCfg, v []byte, thorough bool) []pgcheck.Stmt {
 		out = append(out,
 			mk("eq-table-alias", sess.Q("select x.id from t as x where x.c = "+lit)),
 			mk("eq-qualified", sess.Q("select t.id from t where t.c = "+lit)),
-			mk("eq-literal-and-eq-literal", sess.Q("select id from t where c = "+lit+" and c = "+lit)),
 			mk("eq-two-params", sess.Ext("", "select id from t where c = $1 or c = $2", [][]byte{tp, tp}, nil, nil, nil)),
 		)
 	}
